@@ -42,6 +42,9 @@ TEXTS = [
     ('# 10 "inc.h"\nint q;\n# 20 "other.h" 2\nint r = sizeof(T);\n', "d.c"),
     ("typedef char T; T v[3] = { (T)1, 2 };\n#pragma once\nvoid h(T p) { T *q = &p; }\n", "e.c"),
     ("void k(void) { typedef int T; T a; { int T; T = 1; } T b; } T c;\n", "f.c"),
+    # the same bare line directives (no file name) in inputs with different file names
+    ("int p1;\n#line 20\nint p2;\n# 30\nint p3;\n", "g.c"),
+    ("#line 20\nchar q1;\n# 30\nchar q2;\n", "h.h"),
 ]
 GEN_TEXTS = [
     "void f(int a) { if (a) { while (a) { a--; } } else { switch (a) { case 1: { break; } default: ; } } }",
@@ -150,9 +153,43 @@ def tok_job(P, alpha, a_src, b_src, max_sw):
 
 
 # ---------------------------------------------------------------- (b) real lexer, concrete texts
+BASELINE_CODE = '''
+import sys, io, json
+sys.path.insert(0, {repo!r})
+from pycparser import c_parser
+text, fn = json.loads(sys.stdin.read())
+try:
+    a = c_parser.CParser().parse(text, fn)
+    b = io.StringIO(); a.show(buf=b, attrnames=True, nodenames=True, showcoord=True)
+    print(json.dumps(["ast", b.getvalue()]))
+except c_parser.ParseError as e:
+    print(json.dumps(["ParseError", str(e)]))
+except Exception as e:
+    print(json.dumps(["exc", type(e).__name__ + ":" + str(e)[:60]]))
+'''
+_BASELINES = {}
+
+
+def alone_in_fresh_process(text, filename):
+    """result of parsing `text` alone in a process that has parsed nothing else: state shared at module or
+    class level cannot have been influenced by another instance there"""
+    import json
+    import subprocess
+
+    key = (text, filename)
+    if key not in _BASELINES:
+        r = subprocess.run([checklib.VENV_PY, "-c", BASELINE_CODE.format(repo=loader.REPO)], input=json.dumps([text, filename]), capture_output=True, text=True, timeout=120)
+        if r.returncode != 0:
+            raise E.HarnessError("baseline process failed: " + r.stderr[-300:])
+        _BASELINES[key] = tuple(json.loads(r.stdout.strip().splitlines()[-1]))
+    return _BASELINES[key]
+
+
 def real_job(texts, max_sw, name):
     NP = loader.native("c_parser")
     NL = loader.native("c_lexer")
+    for t in texts:
+        alone_in_fresh_process(t[0], t[1])  # before forking workers
 
     def make_engine():
         return E.Engine()
@@ -188,8 +225,9 @@ def real_job(texts, max_sw, name):
         for i, (r, exc) in enumerate(res):
             if exc is not None:
                 raise E.HarnessError(f"task raised {exc!r}")
-            alone = parse_outcome(NP, lambda: NP.CParser(), texts[i][0], texts[i][1])
-            d = same_outcome(r, alone, concrete=True)
+            alone = alone_in_fresh_process(texts[i][0], texts[i][1])
+            got = (r[0], show(r[1])) if r[0] == "ast" else r
+            d = None if tuple(got) == tuple(alone) else f"{got[0]} vs {alone[0]}" + ("" if got[0] != alone[0] or got[0] != "ast" else " (different AST or coordinates)")
             if d:
                 rec["viol"] = {
                     "sig": "interference-real-lexer",
@@ -260,7 +298,12 @@ def replay_real(v):
         f"texts = {v['texts']!r}\nK = {max(1, len(v['trace']))}\n"
         "def show(a):\n    b = io.StringIO(); a.show(buf=b, attrnames=True, nodenames=True, showcoord=True); return b.getvalue()\n"
         "def outcome(mk, t):\n    try: return ('ast', show(mk().parse(t[0], t[1])))\n    except c_parser.ParseError as e: return ('ParseError', str(e))\n    except Exception as e: return ('exc', type(e).__name__)\n"
-        "alone = [outcome(lambda: c_parser.CParser(), t) for t in texts]\n"
+        "import subprocess, json\n"
+        "ALONE = 'import sys, io, json\\nsys.path.insert(0, sys.argv[1])\\nfrom pycparser import c_parser\\ntext, fn = json.loads(sys.stdin.read())\\n'\\\n"
+        "        'try:\\n    a = c_parser.CParser().parse(text, fn); b = io.StringIO(); a.show(buf=b, attrnames=True, nodenames=True, showcoord=True); print(json.dumps([\"ast\", b.getvalue()]))\\n'\\\n"
+        "        'except c_parser.ParseError as e: print(json.dumps([\"ParseError\", str(e)]))\\nexcept Exception as e: print(json.dumps([\"exc\", type(e).__name__]))\\n'\n"
+        "# each text alone, in a process that has parsed nothing else\n"
+        "alone = [tuple(json.loads(subprocess.run([sys.executable, '-c', ALONE, sys.path[0]], input=json.dumps(list(t)), capture_output=True, text=True).stdout)) for t in texts]\n"
         "# count switch points of each parse\n"
         "def run(schedule):\n"
         "    n = len(texts); sems = [threading.Semaphore(0) for _ in range(n)]; done = [False]*n; started = [False]*n; res = [None]*n\n"
@@ -318,7 +361,7 @@ def main():
     for a_src, b_src in PAIRS_TOK:
         job, _ = tok_job(P, alpha, a_src, b_src, b["tok_switches"])
         jobs.append(job)
-    pairs = [(0, 1), (2, 3), (4, 5), (0, 5), (1, 4), (2, 4)]
+    pairs = [(0, 1), (2, 3), (4, 5), (0, 5), (1, 4), (2, 4), (6, 7), (3, 7)]
     for i, j in pairs:
         jobs.append(real_job([TEXTS[i], TEXTS[j]], b["real_switches"], f"real:{TEXTS[i][1]}+{TEXTS[j][1]}"))
     jobs.append(real_job([TEXTS[0], TEXTS[1], TEXTS[2]], b["real3_switches"], "real3:a+b+c"))
